@@ -1849,7 +1849,11 @@ func (c *Compiler) getIdentities(cfgNode parse.Node, i schema.Identityref, node 
 	mod := node.Root()
 	tm, ident := c.getModuleAndReference(mod, baseStmnt, parse.NodeIdentity)
 
-	idid, _ := c.identities[tm.Name()+":"+ident.Name()]
+	idid, ok := c.identities[tm.Name()+":"+ident.Name()]
+	if !ok {
+		// An identity that was not collected (those of submodules are not)
+		c.error(node, fmt.Errorf("identity not valid: %s", ident.Name()))
+	}
 
 	idents := make([]*schema.Identity, 0, 0)
 
